@@ -1192,6 +1192,15 @@ class KmipEngine(object):
         else:
             return False
 
+    @staticmethod
+    def _format_date(value):
+        # Date values come from clients: they may lie outside the range the
+        # platform can convert to a calendar date.
+        try:
+            return time.asctime(time.gmtime(value))
+        except (OverflowError, OSError, ValueError):
+            return str(value)
+
     def _is_valid_date(self, date_type, value, start, end):
         date_type = date_type.value.lower()
 
@@ -1202,9 +1211,9 @@ class KmipEngine(object):
                         "Failed match: object's {} ({}) is less than "
                         "the starting {} ({}).".format(
                             date_type,
-                            time.asctime(time.gmtime(value)),
+                            self._format_date(value),
                             date_type,
-                            time.asctime(time.gmtime(start))
+                            self._format_date(start)
                         )
                     )
                     return False
@@ -1213,9 +1222,9 @@ class KmipEngine(object):
                         "Failed match: object's {} ({}) is greater than "
                         "the ending {} ({}).".format(
                             date_type,
-                            time.asctime(time.gmtime(value)),
+                            self._format_date(value),
                             date_type,
-                            time.asctime(time.gmtime(end))
+                            self._format_date(end)
                         )
                     )
                     return False
@@ -1225,9 +1234,9 @@ class KmipEngine(object):
                         "Failed match: object's {} ({}) does not match "
                         "the specified {} ({}).".format(
                             date_type,
-                            time.asctime(time.gmtime(value)),
+                            self._format_date(value),
                             date_type,
-                            time.asctime(time.gmtime(start))
+                            self._format_date(start)
                         )
                     )
                     return False
